@@ -41,3 +41,163 @@ Theorem c01_accepted_is_applied : forall c s i r sr p s' e, Inv c s -> i_recv i 
   recv_response c s i = Ok (s', e) ->
   nth_error (buffer s') (Z.to_nat (sr_sequence sr - round_sequence s)) = Some (Complete (complete p sr)).
 Proof. exact recv_accepted_applies. Qed.
+
+(* ====================================================================================================
+   THE LAST STEP: the snapshot a reader sees (Proofs/SnapshotTotals.v).
+   The published rounds of a run are fed, one State::update_from_round call per round, to a fresh State
+   ([st_run (state_new max_samples max_flows)] - the publish callback of Tracer::run; a snapshot is a clone of
+   that state after some number of rounds, C20).  Vocabulary, all at the Network interface:
+     [run_log c t0 is]       the observation log of the run (sends with their outcome, deliveries, publishes);
+     [closed_part L] / [open_part L]   the log up to and including the last publish / the round still in progress;
+     [log_sends L]           the probes handed to network.send_probe in L, with the outcome of each send;
+     [log_answers c g L]     the genuine responses of L (the first one per probe; [genuine] decides on the log alone);
+     [hist_ok (r, S, A)]     round r with the send log S and the genuine answers A of that round:
+                             rr_probes r = map (status_of A) S, S has one entry per sequence, every answer
+                             belongs to exactly one answerable probe of S, ttls within 1..254;
+     [hop_truth h t sends answers]   total_sent / total_failed / total_recv / total_time / addrs of hop record h
+                             are the counts and sums over the sends and answers with ttl t.
+   ==================================================================================================== *)
+From Coq Require Import QArith.
+From TV Require Import Core.Flows Core.State Proofs.HopProofs Proofs.HopHistory Proofs.StateProofs Proofs.FlowAttr
+  Proofs.RoundFold Proofs.RunLog Proofs.RunLogProps Proofs.SnapshotTotals.
+Open Scope Z_scope.
+
+(* every published round of every run comes with a well-formed network-level history of that round *)
+Theorem c01_history_wellformed : forall c t0 is, Accept c ->
+  Forall hist_ok (run_hists c t0 is) /\ map h_round (run_hists c t0 is) = pubs (fst (fst (run c t0 is))).
+Proof. exact run_history_wellformed. Qed.
+
+(* the same at any publish position of the observation log, against the ghost computed from the log before it
+   (no reference to the tracer state): the slots of the round are the statuses that ghost prescribes *)
+Theorem c01_round_is_log_history : forall c t0 is l1 r now adv l2, Accept c ->
+  run_log c t0 is = l1 ++ OPublish r now adv :: l2 ->
+  let g := ghost_after c t0 l1 in
+  hist_ok (r, g_S g, g_A g) /\ In (r, g_S g, g_A g) (run_hists c t0 is).
+Proof. exact round_is_log_history. Qed.
+
+(* status by status: a probe is reported complete (with the fields of c01_complete_fields) EXACTLY WHEN a genuine
+   response to it was delivered before the round was published; failed exactly when its send failed; still awaited
+   exactly when it went out and no genuine response came; one slot per probe handed to the network, none NotSent *)
+Theorem c01_status_exactly : forall x, hist_ok x ->
+  (forall cc, In (Complete cc) (rr_probes (h_round x)) <-> exists p sr, In (p, sr) (h_answers x) /\ cc = complete p sr) /\
+  (forall p, In (Failed p) (rr_probes (h_round x)) <-> In (p, ProbeFailedO) (h_sends x)) /\
+  (forall p, In (Awaited p) (rr_probes (h_round x)) <->
+             exists o, In (p, o) (h_sends x) /\ answerable o = true /\ forall sr, ~ In (p, sr) (h_answers x)) /\
+  length (rr_probes (h_round x)) = length (h_sends x) /\
+  ~ In NotSent (rr_probes (h_round x)).
+Proof. exact status_exactly. Qed.
+
+(* no response counted twice, none lost: as many completed slots as genuine answers *)
+Theorem c01_complete_count : forall x, hist_ok x ->
+  length (filter is_complete (rr_probes (h_round x))) = length (h_answers x).
+Proof. exact complete_count. Qed.
+
+(* the aggregator never faults on the rounds a strategy publishes: the State exists after any number of them *)
+Theorem c01_state_never_faults : forall rs s, AllW s -> Forall wf_round rs -> exists s', st_run s rs = Ok s' /\ AllW s'.
+Proof. exact st_run_total. Qed.
+
+(* the hop record built from any sequence of rounds with well-formed histories tells the ground truth of its ttl *)
+Theorem c01_hop_truth_of_rounds : forall ms hs t, Forall hist_ok hs ->
+  hop_truth (hop_run ms (rounds_events (map h_round hs) t)) t (pub_sends hs) (pub_answers hs).
+Proof. exact hop_run_truth. Qed.
+
+(* THE SNAPSHOT OF EVERY RUN.  For every accepted configuration and every behaviour of the environment the State
+   fed with the published rounds exists, and hop t (index t-1) of the default flow has
+     total_sent   = number of probes of ttl t handed to the network in published rounds and not abandoned as Skipped,
+     total_failed = number of transient send failures at ttl t,
+     total_recv   = number of genuine responses (first one per probe) delivered for ttl t before the publish,
+     total_time   = sum of max 0 (receive time - send time) over those responses,
+     addrs        = the hosts of those responses with their multiplicities (one key per host) *)
+Theorem c01_snapshot_hop_truth : forall c t0 is ms mf, Accept c ->
+  let L := run_log c t0 is in
+  exists s', st_run (state_new ms mf) (pubs (fst (fst (run c t0 is)))) = Ok s' /\
+    forall i h, nth_error (fs_hops (flow_or_new s' 0)) i = Some h ->
+      hop_truth h (Z.of_nat i + 1) (log_sends (closed_part L)) (log_answers c (g_init t0) (closed_part L)).
+Proof. exact run_snapshot_truth. Qed.
+
+(* summed over the hops nothing is invented, dropped or counted twice *)
+Theorem c01_snapshot_sums : forall c t0 is ms mf s', Accept c ->
+  st_run (state_new ms mf) (pubs (fst (fst (run c t0 is)))) = Ok s' ->
+  let L := run_log c t0 is in
+  let hops := fs_hops (flow_or_new s' 0) in
+  zsum (map h_sent hops) = Z.of_nat (length (filter not_abandoned (log_sends (closed_part L)))) /\
+  zsum (map h_failed hops) = Z.of_nat (length (filter failed_send (log_sends (closed_part L)))) /\
+  zsum (map h_recv hops) = Z.of_nat (length (log_answers c (g_init t0) (closed_part L))).
+Proof. exact run_snapshot_sums. Qed.
+
+(* the history of the published rounds is the closed part of the log *)
+Theorem c01_history_is_closed_log : forall c t0 is, Accept c ->
+  pub_sends (run_hists c t0 is) = log_sends (closed_part (run_log c t0 is)) /\
+  pub_answers (run_hists c t0 is) = log_answers c (g_init t0) (closed_part (run_log c t0 is)).
+Proof. exact run_hists_log. Qed.
+
+(* a probe of the round still in progress is never visible in a snapshot: the log is closed part ++ open part,
+   nothing is published in the open part, and the published rounds (all that reaches State) are those of the
+   closed part - the totals above range over the closed part only *)
+Theorem c01_open_round_invisible : forall c t0 is, Accept c ->
+  let L := run_log c t0 is in
+  L = closed_part L ++ open_part L /\ no_publish (open_part L) /\
+  pubs (fst (fst (run c t0 is))) = pubs (events_of (closed_part L)).
+Proof. exact open_round_invisible. Qed.
+
+(* per flow (State::update_from_round attributes each round to the default flow 0 and to one registered flow):
+   the hops of flow id tell the ground truth of exactly the published rounds attributed to it, in closed form ... *)
+Theorem c01_state_of_histories : forall ms mf hs s' id, Forall hist_ok hs ->
+  st_run (state_new ms mf) (map h_round hs) = Ok s' ->
+  let fh := flow_hists id (state_new ms mf) hs in
+  fs_hops (flow_or_new s' id) =
+    map (fun i => hop_run ms (rounds_events (map h_round fh) (Z.of_nat i + 1))) (seq 0 MAX_TTL_N) /\
+  forall i h, nth_error (fs_hops (flow_or_new s' id)) i = Some h ->
+    hop_truth h (Z.of_nat i + 1) (pub_sends fh) (pub_answers fh).
+Proof. exact snapshot_flow_truth. Qed.
+
+Theorem c01_snapshot_flow_truth : forall c t0 is ms mf s' id, Accept c ->
+  st_run (state_new ms mf) (pubs (fst (fst (run c t0 is)))) = Ok s' ->
+  let fh := flow_hists id (state_new ms mf) (run_hists c t0 is) in
+  forall i h, nth_error (fs_hops (flow_or_new s' id)) i = Some h ->
+    hop_truth h (Z.of_nat i + 1) (pub_sends fh) (pub_answers fh).
+Proof. exact run_snapshot_flow_truth. Qed.
+
+(* ... and its totals add up to the history of those rounds *)
+Theorem c01_snapshot_flow_sums : forall ms mf hs s' id, Forall hist_ok hs ->
+  st_run (state_new ms mf) (map h_round hs) = Ok s' ->
+  let fh := flow_hists id (state_new ms mf) hs in
+  let hops := fs_hops (flow_or_new s' id) in
+  zsum (map h_sent hops) = Z.of_nat (length (filter not_abandoned (pub_sends fh))) /\
+  zsum (map h_failed hops) = Z.of_nat (length (filter failed_send (pub_sends fh))) /\
+  zsum (map h_recv hops) = Z.of_nat (length (pub_answers fh)).
+Proof. exact snapshot_sums. Qed.
+
+(* the default flow takes every published round; a registered flow a sub-sequence of them *)
+Theorem c01_default_flow_takes_all : forall hs s s', st_run s (map h_round hs) = Ok s' -> flow_hists 0 s hs = hs.
+Proof. exact flow_hists_default. Qed.
+
+(* ---- examples (example runs of Proofs/RunLogProps.v) ---- *)
+(* ICMP, two published rounds over a path of length 3: hops 1..3 sent 2 / received 1 each (round 1 stays silent),
+   hop 4 sent 1; the duplicate of the target's answer is not counted *)
+Example c01_ex_snapshot :
+  match st_run (state_new 10 4) (pubs (fst (fst (run rl_ex_cfg 0 rl_ex_ins)))) with
+  | Ok s => map (fun h => (h_sent h, h_failed h, h_recv h, h_total_time h, h_addrs h)) (firstn 5 (fs_hops (flow_or_new s 0)))
+  | _ => []
+  end = [(2, 0, 1, 1, [([9;9;9;1], 1)]); (2, 0, 1, 1, [([9;9;9;2], 1)]); (2, 0, 1, 1, [([1;2;3;4], 1)]); (1, 0, 0, 0, []); (0, 0, 0, 0, [])] /\
+  map (fun po => p_ttl (fst po)) (log_sends (closed_part (run_log rl_ex_cfg 0 rl_ex_ins))) = [1;2;3;4;1;2;3] /\
+  map (fun a => (p_ttl (fst a), answer_host a, answer_rtt a)) (log_answers rl_ex_cfg (g_init 0) (closed_part (run_log rl_ex_cfg 0 rl_ex_ins)))
+    = [(1, [9;9;9;1], 1); (2, [9;9;9;2], 1); (3, [1;2;3;4], 1)].
+Proof. vm_compute. repeat split. Qed.
+
+(* TCP with port collisions: ttl 2 is handed to the network three times in round 0 (two sends abandoned: address in
+   use), ttl 3 fails transiently: hop 2 sent 1 / received 1, hop 3 sent 1 / failed 1.  The run ends inside round 1:
+   its two ttl 2 probes are in the open part of the log and in no total *)
+Example c01_ex_snapshot_tcp :
+  match st_run (state_new 10 4) (pubs (fst (fst (run rl_ex_tcp_cfg 0 rl_ex_tcp_ins)))) with
+  | Ok s => map (fun h => (h_sent h, h_failed h, h_recv h)) (firstn 4 (fs_hops (flow_or_new s 0)))
+  | _ => []
+  end = [(0, 0, 0); (1, 0, 1); (1, 1, 0); (0, 0, 0)] /\
+  map (fun po => (p_ttl (fst po), snd po)) (log_sends (closed_part (run_log rl_ex_tcp_cfg 0 rl_ex_tcp_ins)))
+    = [(2, AddressInUseO); (2, AddressInUseO); (2, Sent); (3, ProbeFailedO)] /\
+  map (fun po => (p_ttl (fst po), snd po)) (log_sends (open_part (run_log rl_ex_tcp_cfg 0 rl_ex_tcp_ins)))
+    = [(2, AddressInUseO); (2, Sent)].
+Proof. vm_compute. repeat split. Qed.
+
+Example c01_ex_accept : Accept rl_ex_cfg /\ Accept rl_ex_tcp_cfg.
+Proof. split; (split; [reflexivity|unfold cfg_wf; cbn; unfold u8, u16; lia]). Qed.
